@@ -23,25 +23,46 @@ from harness.common import (guarded, Ctx, Names, Toks, call, enc_dfa, enc_nfa, e
 LEVEL = "proof"
 RULE = ("cases = (valid DFA or NFA, word); bounded-exhaustive small automata × all short words over "
         "alphabet ∪ {foreign symbol}, then shaped random automata (≤7 states, adversarial name pools) × "
-        "random words; a case is non-trivial when the word is non-empty and the automaton has ≥2 states; "
-        "distinct = distinct (definition, word) pairs")
+        "random words; DFAs are also read with ignore_rejection=True; families: empty alphabet, NFAs with transition "
+        "rows keyed by non-states, non-str items for `in` (None, 5, ('a',), b'a', 1.5, frozenset()); big cases (oracle "
+        "only, no model call): ε-chains / ε-cycles of ~1500 states, union-like towers, 1500-state DFAs, read with the "
+        "independent textbook interpreter; a case is non-trivial when the word is non-empty and the automaton has ≥2 "
+        "states; distinct = distinct (definition, word) pairs")
 ASSUMPTIONS = [
-    "state names are hashable values none of which is literally None; symbols are single characters",
+    "state names are hashable values; a definition with a state literally named None is refused by validate() since "
+    "/repo b159ae7 (the corpus checks that it IS refused: in the model None is the dead configuration and cannot be a "
+    "state name, i.e. unrepresentable = rejected)",
+    "input symbols are single characters (documented domain restriction, reviewer item X3: a multi-character symbol "
+    "validates but can never be read, because Python iterates a str character by character; '' as an input symbol "
+    "is refused by validate() since /repo 07f4843)",
     "Python set/dict semantics are modelled (lists / association lists); iteration order is not relied on",
 ]
 EXPLANATION = ("Theorems C01_* tie the model's reader to Mathlib's DFA/εNFA acceptance for every valid "
                "automaton and every word; this run ties the model to the code by differential execution.")
 
 
-def impl_observe(m, w, nonstr=5):
+NONSTR = [5, None, ("a",), b"a", 1.5, frozenset(), ("a", "b"), 0, True]
+
+
+def impl_observe(m, w, nonstr=5, is_nfa=True):
     tr, exn = [], None
     try:
         for c in m.read_input_stepwise(w):
             tr.append(c)
     except Exception as e:  # noqa: BLE001
         exn = exc_name(e)
-    return dict(trace=tr, exn=exn, read=call(lambda: m.read_input(w)), acc=call(lambda: m.accepts_input(w)),
-                isin=call(lambda: w in m), isin_nonstr=call(lambda: nonstr in m))
+    out = dict(trace=tr, exn=exn, read=call(lambda: m.read_input(w)), acc=call(lambda: m.accepts_input(w)),
+               isin=call(lambda: w in m), isin_nonstr=call(lambda: nonstr in m))
+    if not is_nfa:
+        # DFA.read_input_stepwise(input_str, ignore_rejection=True)
+        tr2, exn2 = [], None
+        try:
+            for c in m.read_input_stepwise(w, ignore_rejection=True):
+                tr2.append(c)
+        except Exception as e:  # noqa: BLE001
+            exn2 = exc_name(e)
+        out["ign_trace"], out["ign_exn"] = tr2, exn2
+    return out
 
 
 def ref_dfa(d: DFA, w: str):
@@ -107,9 +128,17 @@ def check_one(ctx: Ctx, m, w: str, is_nfa: bool, origin: str, enc3=None):
         enc, st, sy = enc_nfa(m)
     else:
         enc, st, sy = enc_dfa(m)
-    obs = impl_observe(m, w)
+    nonstr = NONSTR[ctx.evaluations % len(NONSTR)]
+    obs = impl_observe(m, w, nonstr, is_nfa)
     line = drv.ask(toks("NFA_READ" if is_nfa else "DFA_READ", enc, enc_word(sy, w)))
     mod = parse_model(line, is_nfa)
+    if not is_nfa:
+        t2 = Toks(drv.ask(toks("DFA_READ_IGNORE", enc, enc_word(sy, w))))
+        t2.expect("trace")
+        mod["ign_trace"] = t2.many(t2.optint)
+        t2.expect("exn")
+        e2 = t2.next()
+        mod["ign_exn"] = None if e2 == "-" else e2
 
     def cfg(c):
         if is_nfa:
@@ -122,6 +151,9 @@ def check_one(ctx: Ctx, m, w: str, is_nfa: bool, origin: str, enc3=None):
     impl = dict(trace=[cfg(c) for c in obs["trace"]], exn=obs["exn"], read=res(obs["read"], cfg),
                 acc=res(obs["acc"], int), isin=res(obs["isin"], int), isin_nonstr=res(obs["isin_nonstr"], int),
                 valid=("ok", None))
+    if not is_nfa:
+        impl["ign_trace"], impl["ign_exn"] = [cfg(c) for c in obs["ign_trace"]], obs["ign_exn"]
+    ctx.stat("nonstr_" + type(nonstr).__name__)
     nontrivial = len(w) >= 1 and len(m.states) >= 2
     ctx.case((("N" if is_nfa else "D"), enc, w) if nontrivial else None)
     ctx.stat(origin)
@@ -147,7 +179,11 @@ def check_one(ctx: Ctx, m, w: str, is_nfa: bool, origin: str, enc3=None):
         if impl["isin"] != textbook["acc"]:
             wrong.append("`in` differs from the textbook verdict")
         if impl["isin_nonstr"] != ("ok", 0):
-            wrong.append("non-str item reported as member")
+            wrong.append(f"non-str item {nonstr!r}: `in` gave {impl['isin_nonstr']} instead of False")
+        if not is_nfa and impl["ign_trace"] != textbook["trace"]:
+            wrong.append("read_input_stepwise(ignore_rejection=True): configurations differ from the textbook run")
+        if not is_nfa and impl["ign_exn"] is not None:
+            wrong.append(f"read_input_stepwise(ignore_rejection=True) ended with {impl['ign_exn']}")
         if racc and impl["read"] != ("ok", textbook["trace"][-1]):
             wrong.append("read_input does not return the final configuration")
         if not racc and impl["read"] != ("err", "RejectionException"):
@@ -156,9 +192,223 @@ def check_one(ctx: Ctx, m, w: str, is_nfa: bool, origin: str, enc3=None):
             wrong.append(f"crash {impl['exn']}")
         if wrong:
             ctx.prop_fail(f"{case['kind']} reading {w!r}: " + "; ".join(wrong),
-                          dict(case, impl=impl, textbook=textbook), None)
+                          dict(case, impl=impl, textbook=textbook, nonstr=repr(nonstr)), None)
         else:
             ctx.corr_diff("NFA_READ" if is_nfa else "DFA_READ", case, impl, mod)
+
+
+# ------------------------------------------------------------------ X1: a state named None must be refused
+MISSING = ("<no transition>",)
+
+
+def none_state_corpus(ctx: Ctx):
+    """Triggers of the repaired defect F27 (/repo b159ae7): definitions with a state literally named None.
+    They must be REFUSED by the constructor (InvalidStateError).  If one is accepted (pre-fix tree), the
+    reader is run against a textbook interpreter that uses its own sentinel for "no transition": the code
+    confuses the state None with the dead configuration, which is then reported as the property failure."""
+    from automata.base.exceptions import InvalidStateError
+    defs = [
+        ("DFA", dict(states={0, None}, input_symbols={"a", "b"}, transitions={0: {"a": 0}, None: {}},
+                     initial_state=0, final_states={None}, allow_partial=True), ["b", "x", "ab", "", "a"]),
+        ("DFA", dict(states={None, 1}, input_symbols={"a"}, transitions={None: {"a": 1}, 1: {"a": None}},
+                     initial_state=1, final_states={1}), ["aa", "a", "", "aaa", "aaaa"]),
+        ("DFA", dict(states={None}, input_symbols={"a"}, transitions={None: {"a": None}}, initial_state=None,
+                     final_states={None}), ["", "a", "aa"]),
+        ("NFA", dict(states={None, 0}, input_symbols={"a"}, transitions={0: {"a": {None}}, None: {"": {0}}},
+                     initial_state=0, final_states={None}), ["a", "", "aa"]),
+        ("NFA", dict(states={None}, input_symbols={"a"}, transitions={None: {"a": {None}}}, initial_state=None,
+                     final_states={None}), ["", "a"]),
+    ]
+    for kind, kw, words in defs:
+        ctx.case(None)
+        ctx.stat("corpus_none_state")
+        cls = DFA if kind == "DFA" else NFA
+        try:
+            m = cls(**kw)
+        except InvalidStateError:
+            ctx.stat("corpus_none_state_refused")
+            continue
+        except Exception as e:  # noqa: BLE001
+            ctx.prop_fail(f"{kind} definition with a state named None raised {type(e).__name__} instead of "
+                          f"InvalidStateError", dict(kind=kind, op="none_state", definition=repr(kw)), None)
+            continue
+        # accepted: evaluate the reader against the definition's own textbook run
+        bad = []
+        for w in words:
+            if kind == "DFA":
+                cur = kw["initial_state"]
+                dead = False
+                for c in w:
+                    if dead:
+                        break
+                    nxt = kw["transitions"].get(cur, {}).get(c, MISSING)
+                    if nxt is MISSING:
+                        dead = True
+                    else:
+                        cur = nxt
+                want = (not dead) and cur in kw["final_states"]
+            else:
+                def clo(S):
+                    S = set(S)
+                    work = list(S)
+                    while work:
+                        q = work.pop()
+                        for t in kw["transitions"].get(q, {}).get("", ()):
+                            if t not in S:
+                                S.add(t)
+                                work.append(t)
+                    return S
+                cur = clo({kw["initial_state"]})
+                for c in w:
+                    cur = clo({t for q in cur for t in kw["transitions"].get(q, {}).get(c, ())})
+                want = bool(cur & kw["final_states"])
+            got = call(lambda: m.accepts_input(w))
+            if got != ("ok", want):
+                bad.append((w, want, got))
+        what = (f"a {kind} definition with a state literally named None passes validation "
+                f"({kind}(**{kw!r})); ")
+        if bad:
+            w, want, got = bad[0]
+            what += (f"the reader then treats the state None as the dead configuration: accepts_input({w!r}) gives "
+                     f"{got[1] if got[0] == 'ok' else 'raises ' + got[1]}, the textbook run of the table gives {want}")
+        else:
+            what += "the model (and the documentation) cannot name such a state: it must be refused with InvalidStateError"
+        ctx.prop_fail(what, dict(kind=kind, op="none_state", definition=repr(kw)), None)
+
+
+# ------------------------------------------------------------------ more generator families
+def empty_alphabet_family(ctx: Ctx):
+    """Automata over the empty alphabet: only '' (and words of foreign symbols) can be read."""
+    rng = ctx.rng
+    ms = []
+    for fin in (set(), {0}, {1}, {0, 1}):
+        for partial in (False, True):
+            ms.append((DFA(states={0, 1}, input_symbols=set(), transitions={0: {}, 1: {}}, initial_state=0,
+                           final_states=fin, allow_partial=partial), False))
+        ms.append((NFA(states={0, 1}, input_symbols=set(), transitions={0: {"": {1}}, 1: {}}, initial_state=0,
+                       final_states=fin), True))
+        ms.append((NFA(states={0, 1}, input_symbols=set(), transitions={0: {"": {1}}, 1: {"": {0}}}, initial_state=1,
+                       final_states=fin), True))
+        ms.append((NFA(states={0}, input_symbols=set(), transitions={}, initial_state=0, final_states=fin & {0}), True))
+    for m, is_nfa in ms:
+        for w in ("", "#", "##", "a"):
+            check_one(ctx, m, w, is_nfa, "empty_alphabet")
+    ctx.exhaustive("2-state DFAs/NFAs over the empty alphabet (all final sets, partial and complete, ε-moves) × {'', '#', '##', 'a'}")
+
+
+def junk_row_nfa(rng, max_states=5):
+    """Valid NFA with transition rows keyed by names that are not states (they pass validation: only
+    the symbols and the end states of a row are checked)."""
+    n0 = gen.rand_nfa(rng, max_states)
+    names = sorted(n0.states, key=repr)
+    sy = sorted(n0.input_symbols)
+    trans = {k: {a: set(ts) for a, ts in row.items()} for k, row in n0.transitions.items()}
+    for k in [x for x in (-1, 0, 1, len(names), "junk", ("j", 0)) if x not in n0.states][: rng.randint(1, 2)]:
+        row = {}
+        for a in sy + [""]:
+            if rng.random() < 0.5:
+                row[a] = {t for t in names if rng.random() < 0.4}
+        trans[k] = row
+    keys = list(trans)
+    rng.shuffle(keys)
+    return NFA(states=set(n0.states), input_symbols=set(sy), transitions={k: trans[k] for k in keys},
+               initial_state=n0.initial_state, final_states=set(n0.final_states))
+
+
+# ------------------------------------------------------------------ big cases (oracle only)
+def big_chain_nfa(n: int, cycle: bool):
+    """0 -ε-> 1 -ε-> … -ε-> n-1 (-ε-> 0 if cycle); even states loop on 'a'; n-1 reads 'b' into 0; F = {n-1}."""
+    trans = {k: {"": {k + 1}} for k in range(n - 1)}
+    trans[n - 1] = {"": {0}} if cycle else {}
+    for k in range(0, n, 2):
+        trans[k]["a"] = {k}
+    trans[n - 1]["b"] = {0}
+    return NFA(states=set(range(n)), input_symbols={"a", "b"}, transitions=trans, initial_state=0,
+               final_states={n - 1})
+
+
+def big_tower_nfa(n: int):
+    """The shape n successive unions build: ("top",k) -ε-> ("leaf",k), ("top",k+1); ("leaf",k) -sym-> ("acc",k)."""
+    trans, finals = {}, set()
+    for k in range(n):
+        leaf, acc = ("leaf", k), ("acc", k)
+        trans[("top", k)] = {"": {leaf} | ({("top", k + 1)} if k + 1 < n else set())}
+        trans[leaf] = {"ab"[k % 2]: {acc}}
+        trans[acc] = {}
+        finals.add(acc)
+    return NFA(states=set(trans), input_symbols={"a", "b"}, transitions=trans, initial_state=("top", 0),
+               final_states=finals)
+
+
+def big_counter_dfa(n: int, partial: bool):
+    """a-counter modulo n (b resets to 0; with `partial`, state n-1 has no 'a'); F = {n-1}."""
+    trans = {k: {"a": (k + 1) % n, "b": 0} for k in range(n)}
+    if partial:
+        del trans[n - 1]["a"]
+    return DFA(states=set(range(n)), input_symbols={"a", "b"}, transitions=trans, initial_state=0,
+               final_states={n - 1}, allow_partial=partial)
+
+
+def check_big(ctx: Ctx, name: str, build, words, is_nfa: bool):
+    """Oracle only (the list-based model would take minutes on 1500 states): the real reader against the
+    independent textbook interpreter of this file.  Any exception other than RejectionException — a
+    RecursionError from a recursive closure included — is a crash, i.e. a property failure."""
+    ctx.stat("big_case")
+    ctx.stat("big_" + name)
+    replay = dict(op="big", kind="NFA" if is_nfa else "DFA", name=name)
+    try:
+        m = build()
+    except BaseException as e:  # noqa: BLE001
+        ctx.case(None)
+        ctx.prop_fail(f"big case {name}: constructing a valid definition raised {type(e).__name__}", replay, None)
+        return
+    for w in words:
+        ctx.case(("big", name, w))
+        rtr, racc = (ref_nfa if is_nfa else ref_dfa)(m, w)
+        want_read = ("ok", rtr[-1]) if racc else ("err", "RejectionException")
+        obs = {}
+        for key, f in (("read", lambda: m.read_input(w)), ("acc", lambda: m.accepts_input(w)),
+                       ("isin", lambda: w in m), ("trace", lambda: list(m.read_input_stepwise(w)))):
+            try:
+                obs[key] = ("ok", f())
+            except BaseException as e:  # noqa: BLE001 - RecursionError / MemoryError are crashes of the reader
+                if isinstance(e, KeyboardInterrupt):
+                    raise
+                obs[key] = ("err", type(e).__name__)
+        wrong = []
+        if obs["read"] != want_read:
+            wrong.append(f"read_input gave {obs['read'][0]} {obs['read'][1] if obs['read'][0] == 'err' else '…'}, "
+                         f"expected {want_read[0]} {want_read[1] if want_read[0] == 'err' else 'the final configuration'}")
+        if obs["acc"] != ("ok", racc):
+            wrong.append(f"accepts_input gave {obs['acc']}, the textbook verdict is {racc}")
+        if obs["isin"] != ("ok", racc):
+            wrong.append(f"`in` gave {obs['isin']}, the textbook verdict is {racc}")
+        want_trace = ("ok", rtr) if racc else ("err", "RejectionException")
+        if obs["trace"] != want_trace:
+            wrong.append("read_input_stepwise: " + (f"raised {obs['trace'][1]}" if obs["trace"][0] == "err"
+                                                    else "configurations differ from the textbook run"))
+        if wrong:
+            ctx.prop_fail(f"big case {name} ({len(m.states)} states) reading {w!r}: " + "; ".join(wrong),
+                          dict(replay, word=w), None)
+            return
+
+
+BIG = {
+    "eps_chain_1500": (lambda: big_chain_nfa(1500, False), True),
+    "eps_cycle_1500": (lambda: big_chain_nfa(1500, True), True),
+    "union_tower_1200": (lambda: big_tower_nfa(1200), True),
+    "counter_dfa_1500": (lambda: big_counter_dfa(1500, False), False),
+    "counter_dfa_1500_partial": (lambda: big_counter_dfa(1500, True), False),
+}
+BIG_WORDS = ["", "a", "b", "ab", "ba", "aab", "c", "bb"]
+
+
+def run_big(ctx: Ctx):
+    for name, (build, is_nfa) in BIG.items():
+        words = list(BIG_WORDS)
+        if not is_nfa:
+            words += ["a" * 1499, "a" * 1500, "a" * 1499 + "b" + "a" * 1499, "a" * 700 + "#" + "a" * 799]
+        check_big(ctx, name, build, words, is_nfa)
 
 
 def words_for(m, max_len):
@@ -170,6 +420,20 @@ def words_for(m, max_len):
 def run(ctx: Ctx):
     rng = ctx.rng
     thorough = ctx.thorough()
+    # 0. corpus / special families
+    none_state_corpus(ctx)
+    empty_alphabet_family(ctx)
+    run_big(ctx)
+    for _ in range(ctx.budget(400, 15000)):
+        n = junk_row_nfa(rng)
+        sy = sorted(n.input_symbols)
+        for _ in range(3):
+            check_one(ctx, n, gen.rand_word(rng, sy, 8, gen.foreign_symbol(sy)), True, "random_nfa_junk_rows")
+    for _ in range(ctx.budget(200, 8000)):
+        d = gen.rand_dfa(rng, 6, junk_rows=True)
+        sy = sorted(d.input_symbols)
+        for _ in range(3):
+            check_one(ctx, d, gen.rand_word(rng, sy, 8, gen.foreign_symbol(sy)), False, "random_dfa_junk_rows")
     # 1. bounded-exhaustive
     wl = 4 if thorough else 3
     for n_states, alpha in ((1, ("a", "b")), (2, ("a", "b"))):
@@ -230,8 +494,14 @@ def replay(ctx: Ctx, path: str) -> int:
     data = json.load(open(path))
     rp = data.get("replay", data)
     env = {"DFA": DFA, "NFA": NFA, "frozenset": frozenset}
-    m = eval(rp["automaton"], env)  # repr() of the automaton, produced by this harness
-    check_one(ctx, m, rp["word"], rp["kind"] == "NFA", "replay")
+    if rp.get("op") == "none_state":
+        none_state_corpus(ctx)
+    elif rp.get("op") == "big":
+        build, is_nfa = BIG[rp["name"]]
+        check_big(ctx, rp["name"], build, [rp["word"]] if "word" in rp else BIG_WORDS, is_nfa)
+    else:
+        m = eval(rp["automaton"], env)  # repr() of the automaton, produced by this harness
+        check_one(ctx, m, rp["word"], rp["kind"] == "NFA", "replay")
     if ctx.prop_fails:
         print(f"VIOLATION property=C01 replay={path}")
         print("  " + ctx.prop_fails[0]["what"])
